@@ -1521,3 +1521,26 @@ def desugar_boolean_returns(trees):
             fn.body = _map_blocks(fn.body, f)
         ast.fix_missing_locations(tree)
     return n
+
+
+# --------------------------------------------------------------------------------------------- chained assignment
+def split_chained_assignments(trees):
+    """`a = b = V` with a constant / stable V is `a = V` followed by `b = V` (same left-to-right order of stores)"""
+    n = 0
+
+    def f(stmts):
+        nonlocal n
+        out = []
+        for s in stmts:
+            if isinstance(s, ast.Assign) and len(s.targets) > 1 and _stable(s.value):
+                for t in s.targets:
+                    out.append(ast.copy_location(ast.Assign(targets=[t], value=copy.deepcopy(s.value)), s))
+                n += 1
+            else:
+                out.append(s)
+        return out
+    for tree in trees.values():
+        for parts, fn in alpha.walk_functions(tree):
+            fn.body = _map_blocks(fn.body, f)
+        ast.fix_missing_locations(tree)
+    return n
